@@ -336,6 +336,25 @@ def names(rc):
                             f"split into its elements (assertions about variables that do not exist), an int name raises", construct=f"{f.qual} bare node {e.id} in assertion")
     if n_as < 3:
         raise AnalysisError(f"C16.names: expected the assertion-building sites of DAG and MarkovNetwork, found {n_as}")
+    # a node name that becomes part of a label (column name) goes through str(): `name + "_"` raises for every non-string node name
+    n_cat = 0
+    for f in repo.all_functions():
+        if f.file not in files or f.cls is None:
+            continue
+        loopvars = set()
+        for n in ast.walk(f.node):
+            if isinstance(n, (ast.For, ast.comprehension)):
+                loopvars |= {x.id for x in ast.walk(n.target) if isinstance(x, ast.Name)}
+        for n in ast.walk(f.node):
+            if isinstance(n, ast.BinOp) and isinstance(n.op, ast.Add):
+                ops = (n.left, n.right)
+                if any(isinstance(o, ast.Constant) and isinstance(o.value, str) for o in ops):
+                    n_cat += 1
+                    for o in ops:
+                        if isinstance(o, ast.Name) and o.id in loopvars:
+                            rc.fail(f, n, f"{f.qual}: `{norm(n, 50)}` concatenates the loop variable `{o.id}` (a node / state) with a string without str(): a non-string name raises "
+                                    "TypeError", construct=f"{f.qual} bare {o.id} + str")
+    rc.ob(f"model files: {n_cat} string concatenation(s) examined for bare node names")
 
 
 def _leaves(t):
@@ -398,6 +417,8 @@ def defuse(rc):
     _sh.defuse_rule(rc, _sh.anchor_files("C16"))
 
 MUTANTS = [
+    dict(kind="break", name="predict-probability-bare-node-label", file="pgmpy/models/BayesianNetwork.py", expect="C16.names",
+         old='pred_values[str(k) + "_" + str(state)]', new='pred_values[k + "_" + str(state)]'),
     dict(kind="break", name="assertion-bare-start-node", file="pgmpy/base/DAG.py", expect="C16.names",
          old="                            [[start], d_seperated_variables, observed]", new="                            [start, d_seperated_variables, observed]"),
     dict(kind="break", name="markov-assertion-bare-node", file="pgmpy/models/MarkovNetwork.py", expect="C16.names",
